@@ -4,6 +4,7 @@ assemble; compute; (re-value) compute is compared with evaluate on the same valu
 from __future__ import annotations
 
 import random
+import dataclasses as _dc
 from concurrent.futures import ThreadPoolExecutor
 
 from .. import cdrv, engine, gen, native, taco
@@ -31,7 +32,7 @@ def run_native(run, tier):
                     reval[s.name] = taco.build(new_inputs[s.name], dims[s.name], modes, ordering)[1]
             hist = cdrv.NativeCase(code, native.tensor_specs(case, k.problem), ["assemble", "compute", "compute"], {2: reval})
             ev1 = cdrv.NativeCase(code, native.tensor_specs(case, k.problem), ["evaluate"])
-            case2 = engine.Case(case.assignment, case.formats, case.sizes, new_inputs, case.capacity, case.origin, case.target, case.tree, case.direct_problem)
+            case2 = _dc.replace(case, inputs=new_inputs)
             ev2 = cdrv.NativeCase(code, native.tensor_specs(case2, k.problem), ["evaluate"])
             items.append((case, hist, ev1, ev2))
         b = 8
